@@ -9,9 +9,10 @@
 #
 import math
 from decimal import Decimal
+from contextlib import nullcontext
 from functools import cmp_to_key
 from itertools import zip_longest
-from typing import Any, Optional
+from typing import Any, Optional, Union
 
 from collections.abc import Callable, Iterable, Iterator
 from elementpath.protocols import ElementProtocol
@@ -25,7 +26,7 @@ from elementpath.xpath_tokens import XPathToken, XPathFunction, XPathMap, XPathA
 
 def deep_equal(seq1: Iterable[Any],
                seq2: Iterable[Any],
-               collation: Optional[str] = None,
+               collation: Union[None, str, CollationManager] = None,
                token: Optional[XPathToken] = None) -> bool:
 
     etree_node_types = (EtreeElementNode, CommentNode, ProcessingInstructionNode)
@@ -56,7 +57,15 @@ def deep_equal(seq1: Iterable[Any],
     if collation is None:
         collation = UNICODE_CODEPOINT_COLLATION
 
-    with CollationManager(collation, token=token) as cm:
+    manager: Any
+    if isinstance(collation, CollationManager):
+        # Nested call for the members of a map or an array: the collation context is
+        # already active and its process-wide lock is not reentrant.
+        manager = nullcontext(collation)
+    else:
+        manager = CollationManager(collation, token=token)
+
+    with manager as cm:
         for value1, value2 in zip_longest(seq1, seq2):
             if isinstance(value1, XPathFunction) and \
                     not isinstance(value1, (XPathMap, XPathArray)):
@@ -80,7 +89,7 @@ def deep_equal(seq1: Iterable[Any],
                         if same_key(k1, k2):
                             if not deep_equal(v1 if isinstance(v1, list) else [v1],
                                               v2 if isinstance(v2, list) else [v2],
-                                              collation, token):
+                                              cm, token):
                                 return False
                             break
                     else:
@@ -91,7 +100,7 @@ def deep_equal(seq1: Iterable[Any],
                 for v1, v2 in zip(value1.items(), value2.items()):
                     if not deep_equal(v1 if isinstance(v1, list) else [v1],
                                       v2 if isinstance(v2, list) else [v2],
-                                      collation, token):
+                                      cm, token):
                         return False
             elif isinstance(value1, XPathNode):
                 assert isinstance(value2, XPathNode)
